@@ -1007,5 +1007,16 @@ func SameLoad(a, b ssa.Value) bool {
 	}
 	ra, pa := addrPath(ua.X)
 	rb, pb := addrPath(ub.X)
-	return ra == rb && pa == pb && pa != ""
+	if ra != rb || pa != pb {
+		return false
+	}
+	if pa != "" {
+		return true
+	}
+	// plain loads of one and the same variable (a local, or a variable captured by a closure)
+	switch ra.(type) {
+	case *ssa.FreeVar, *ssa.Alloc:
+		return true
+	}
+	return false
 }
